@@ -15,8 +15,8 @@
     same head (`find_inner_last`) — whose value is `try_unflatten_array` of the group (option
     `none`) or `unflatten_object` of it (`assume_object`), again `try_emplace`d.
   * `try_unflatten_array`: the same partition; every head must be accepted by
-    `dec_to_integer<size_t>` (NOT `to_array_index`: leading zeros are accepted, "00" and "0" are
-    the same index) and is `emplace`d (first wins) into a `std::map<size_t, Json>`; if that map's
+    `detail::to_array_index` (RFC 6901 array-index; before /repo 52dff66 raw `dec_to_integer`
+    made "00" and "0" the same index, D87) and is `emplace`d into a `std::map<size_t, Json>`; if that map's
     keys are exactly 0..size-1 the result is the array of its values, in every other case
     (an entry with no tokens left, a head that is not a number, a gap) the result is
     `unflatten_object(first, last, offset, none)` of the same range.  The optional it returns is
@@ -49,6 +49,10 @@ def mapEmplace {α β : Type} (lt : α → α → Bool) (k : α) (v : β) : List
     if lt k' k then (k', v') :: mapEmplace lt k v ms
     else if lt k k' then (k, v) :: (k', v') :: ms
     else (k', v') :: ms
+
+/-- a sequence of `emplace`s -/
+def emplaceAll {α β : Type} (lt : α → α → Bool) (acc : List (α × β)) (es : List (α × β)) : List (α × β) :=
+  es.foldl (fun m e => mapEmplace lt e.1 e.2 m) acc
 
 inductive Item where
   | skip                                   -- tokens().size() == offset
@@ -88,13 +92,11 @@ decreasing_by
 
 def natLt (a b : Nat) : Bool := decide (a < b)
 
-/-- the index of an item's head as `dec_to_integer<std::size_t>` reads it -/
+/-- the index of an item's head as `detail::to_array_index` reads it (RFC 6901 array-index: no
+    leading zeros, fits `size_t`) -/
 def itemIndex : Item → Option Nat
   | .skip => none
-  | .direct t _ | .group t _ =>
-    match decToU64 t with
-    | .ok n => some n
-    | .error _ => none
+  | .direct t _ | .group t _ => decToIndex t
 
 /-- keys are exactly 0..size-1 (the `index` loop of `try_unflatten_array`) -/
 def contiguousFrom : Nat → List (Nat × JVal) → Bool
@@ -124,7 +126,7 @@ def build (ordered : Bool) : Nat → (arrays tryArr : Bool) → List Entry → J
                   | .group _ inner => build ordered fuel true true inner)) with
       | none => asObject
       | some ivs =>
-        let m := ivs.foldl (fun m iv => mapEmplace natLt iv.1 iv.2 m) []
+        let m := emplaceAll natLt [] ivs
         if contiguousFrom 0 m then .arr (m.map (·.2)) else asObject
     else asObject
 
